@@ -2,5 +2,5 @@
    N/positive/nat stay inductive). *)
 From Coq Require Import List NArith.
 From Coq Require Import ExtrOcamlBasic ExtrOcamlString.
-From Mimium Require Import Tables.LexerTables Lexer.Model.
-Extraction "lex_model.ml" tokenize preparse lex_and_preparse split_projection_float_tokens kind_name kind_code all_kinds blen.
+From Mimium Require Import Tables.LexerTables Lexer.Model Lexer.PreLemmas.
+Extraction "lex_model.ml" tokenize preparse lex_and_preparse split_projection_float_tokens kind_name kind_code all_kinds blen dropped is_trivia.
